@@ -9,6 +9,7 @@ import traceback
 import z3
 
 from . import REPO, VERIF, spec
+from .loops import Retype
 from .ctx import Ctx, PathEnd, SymRaise, Undecided, SOLVER_STATS
 from .interp import Interp, exc_class_names
 from .ops import And, Not, Or
@@ -67,6 +68,7 @@ def run_job(target, case, opts=None):
     n_paths = 0
     canary_done = False
     fv0 = None
+    retypes = 0
     while work:
         dec = work.pop()
         n_paths += 1
@@ -133,6 +135,23 @@ def run_job(target, case, opts=None):
                     ctx.prove(f"on-raise:{nm}", "post", fn(A), info={"path": pid, "exc": val.exc.name}, assume_after=False)
         except PathEnd:
             out["cut_paths"] += 1
+        except Retype as e:
+            # a loop variable needs a real-valued havoc: start the whole job again (the memo in loops.HAVOC_REAL now has it)
+            retypes += 1
+            if retypes > 20:
+                out["undecided"].append("too many havoc retype restarts")
+                break
+            work = [[]]
+            n_paths = 0
+            canary_done = False
+            for key in ("obligations", "undecided"):
+                out[key] = []
+            for key in ("normal_paths", "raise_paths", "cut_paths"):
+                out[key] = 0
+            note = f"loop variable {e} is an int before the loop and a real inside: havoc'd as a real"
+            if note not in out["notes"]:
+                out["notes"].append(note)
+            continue
         except Undecided as e:
             out["undecided"].append(f"{e} [path {ctx.path_id()}]")
         except RecursionError:
